@@ -1169,3 +1169,92 @@ def _no_progress(world):
     keys = ("t", "p", "c", "wc", "cwf", "n", "park")
     first = tuple(sched.snaps[half[0]][k] for k in keys)
     return all(tuple(sched.snaps[i][k] for k in keys) == first for i in half)
+
+
+# re-synchronised after /repo fixes b1d94ba and 1a765e6: service() reads getattr(task.request, 'path', None) in its two log
+# lines and wraps the ladder's `task.service()  # must not fail` in one more handler (except BaseException: log;
+# task.close_on_finish = True).  Neither touches a shared channel attribute, a lock or a call on a shared object; the
+# worker now reaches the tail of service() where it used to leave it with the exception (C09_escape states the new flow).
+EXPECTED_SHAPE['HTTPChannel.service'] = ['(self)',
+ 'R:requests',
+ 'if(v1.error){',
+ 'call:self.error_task_class()',
+ '}',
+ 'else{',
+ 'call:self.task_class()',
+ '}',
+ 'try{',
+ 'if(self.connected and (not self.will_close)){',
+ 'R:connected',
+ 'R:will_close',
+ 'call:v2.service()',
+ '}',
+ 'else{',
+ '}',
+ '}',
+ 'except(ClientDisconnected){',
+ '}',
+ 'except(BaseException){',
+ 'if(not v2.wrote_header){',
+ 'if(self.adj.expose_tracebacks){',
+ '}',
+ 'else{',
+ "let:v3='The server encountered an unexpected internal server error'",
+ '}',
+ 'call:self.parser_class()',
+ 'try{',
+ '}',
+ 'except(KeyError){',
+ 'pass',
+ '}',
+ 'call:self.error_task_class()',
+ 'try{',
+ 'call:v2.service()',
+ '}',
+ 'except(ClientDisconnected){',
+ '}',
+ 'except(BaseException){',
+ '}',
+ '}',
+ 'else{',
+ '}',
+ '}',
+ 'if(v2.close_on_finish){',
+ 'with(self.requests_lock){',
+ 'W:close_when_flushed',
+ 'for(self.requests){',
+ 'R:requests',
+ 'call:v1.close()',
+ '}',
+ 'W:requests',
+ '}',
+ '}',
+ 'else{',
+ 'if(len(self.requests) > 1){',
+ 'R:requests',
+ 'call:self._flush_outbufs_below_high_watermark()',
+ '}',
+ 'if(self.current_outbuf_count > 0){',
+ '}',
+ 'call:v1.close()',
+ 'with(self.requests_lock){',
+ 'R:requests',
+ 'call:self.requests.pop(0)',
+ 'if(self.connected and self.requests){',
+ 'R:connected',
+ 'R:requests',
+ 'call:self.server.add_task()',
+ '}',
+ 'else{',
+ 'if(self.connected and self.request is not None and self.request.expect_continue and self.request.headers_finished '
+ 'and (not self.sent_continue)){',
+ 'R:connected',
+ 'call:self.send_continue(do_close=False)',
+ '}',
+ '}',
+ '}',
+ '}',
+ 'if(self.connected){',
+ 'R:connected',
+ 'call:self.server.pull_trigger()',
+ '}']
